@@ -9,7 +9,50 @@ def legs_simple(pkg, run, qshards, tshards, **kw):
     return f
 
 
+COMMON_ASSUME = [
+    "inputs are those the zcrypto / x-crypto parsers accept (a parser error or a parser panic means: not in the domain)",
+    "generated objects come from the v3/testdata corpus, DER-tree edits of it, and builders; shapes none of them reaches stay unexplored",
+]
+
 CHECKS = {
+    "C01": {
+        "legs": legs_simple("props", "^TestC01$", 14, 16),
+        "rule": "rapid: object (cert 70% / CRL 20% / OCSP 10%: corpus, 0-4 DER-tree edits, openers re-date/re-scope, built CRLs/OCSP) x registry "
+                "(nil, global, Filter(generated), Filter of Filter) x configuration (none, empty, example, unrelated, well-typed, ill-typed); plus the whole "
+                "corpus under the default registry (enumerated). Oracle: result-set invariants. Non-trivial = parseable, >=1 result above pass, and bytes edited "
+                "or registry filtered or configuration given; distinct by hash(DER, filters, config).",
+        "assumptions": COMMON_ASSUME + ["'hang' = a single Lint*Ex call exceeding 120 s"],
+    },
+    "C02": {
+        "legs": legs_simple("props", "^TestC02$", 14, 16),
+        "rule": "corpus + single-leaf-edit sweep (corpus object x leaf x ~190 deterministic edits; strided 1/97 sample in quick, complete in thorough) + rapid multi-edit / "
+                "crossover / opener / built objects, empty configuration, full registry. Oracle: no recovered-panic result, no escaping panic, reference lifecycle "
+                "body does not panic, fatal only as the body's own verdict. Non-trivial = parseable, differs from every corpus file, >=1 lint body executed; distinct by hash(DER).",
+        "assumptions": COMMON_ASSUME,
+    },
+    "C03": {
+        "legs": legs_simple("props", "^TestC03$", 14, 16),
+        "rule": "enumerated boundary sweep: every lint with a dated boundary x K home objects (2 quick / 12 thorough) x {eff,ineff} x {-1s,0,+1s} x time forms "
+                "(UTCTime Z, GeneralizedTime Z; +0100 / -0500 offsets in thorough) with the parsed dates additionally converted to zones +14/-12/+0530; rapid: generated "
+                "objects re-dated to registry dates +-{0,1s,1d} or uniform. Every lint of the kind is judged on every object against the integer window model. "
+                "Non-trivial = (lint, boundary, side, object) with the lint applicable and the object dated within 1 s of that lint's boundary.",
+        "assumptions": COMMON_ASSUME + ["boundaries outside 1951..2048 (zlint's year-0 'ZeroDate') cannot be approached from both sides in UTCTime and are skipped in the sweep"],
+    },
+    "C04": {
+        "legs": legs_simple("props", "^TestC04$", 14, 16),
+        "rule": "enumerated single-feature scope matrix ({no EKU, each of 8 EKUs} x {no policy, each of 18 scope OIDs, anyPolicy, unrelated} x 4 e-mail-SAN variants on the 3 "
+                "corpus certificates that are home to most TLS/SMIME/CS lints) + corpus + rapid objects with openers, filters and configurations. Oracle: framework result == "
+                "reference lifecycle (scope model, fresh instance, MaybeConfigure, CheckApplies, integer window, Execute) for every lint, status and details. "
+                "Non-trivial = object on which >=1 lint's lifecycle stage differs from the untransformed base; distinct by hash(DER).",
+        "assumptions": COMMON_ASSUME + ["mock-lint call logs (constructor/Configure/CheckApplies/Execute order) are covered by the mockreg leg"],
+    },
+    "C06": {
+        "legs": legs_simple("props", "^TestC06$", 14, 16),
+        "rule": "every lint run contributes a (lint, status) tally: corpus, rapid edits directed at the home objects of each lint, generated objects with openers. "
+                "Oracle: status in {pass, NA, NE, fatal} or the one severity the name prefix allows; every registered name has exactly one prefix (enumerated). "
+                "Non-trivial = distinct (lint, status above pass) pair observed.",
+        "assumptions": COMMON_ASSUME + ["only executed return paths are observed"],
+    },
     "C12": {
         "legs": legs_simple("props", "^TestC12$", 1, 4),
         "exhaustive": True,
